@@ -613,13 +613,20 @@ def cold_specs():
     }
 
 
+CANARY_METHODS: list = []   # filled in the pristine process (the method list itself must not be read
+#                             from a table a schedule may have damaged)
+
+
 def canaries():
     """What a schedule leaves behind for LATER callers of OTHER code paths: after the threads have
     finished, every implemented Bundesbank method judges two digit-rich base accounts and their
     single-digit neighbours in the last five positions, and a few IBANs / BICs / lookups are run - in the same process."""
     out = []
-    for m in c07.lib_methods():
-        alg = lib.checksum.algorithms["DE:" + m]
+    for m in CANARY_METHODS or c07.lib_methods():
+        alg = lib.checksum.algorithms.get("DE:" + m)
+        if alg is None or not hasattr(alg, "validate"):
+            out.append((m, f"algorithm table entry is {alg!r}"))
+            continue
         bits = []
         rich = [b for b in c07.bases_for(m) if len(set(b)) > 3][:2] or c07.bases_for(m)[:1]
         accts = [a for b in rich for a in c07.deviations(b, 1) if a[:5] == b[:5]]  # last five positions varied
@@ -631,6 +638,29 @@ def canaries():
               lambda: lib.bic_parse("GENODEM1GLS"), lambda: lib.outcome(lambda: str(lib.BIC.from_bank_code("DE", "43060967"))),
               lambda: lib.outcome(lambda: str(lib.IBAN.generate("ES", "2100", "0200051332", "0418")))):
         out.append(f())
+    return out
+
+
+def cold_bank_pairs():
+    """(name, spec, spec): national validations of two German IBANs whose banks use DIFFERENT
+    methods, as the first library calls of the process (whatever is looked up or built on first use
+    of one method must not be disturbed by the first use of another)."""
+    methods = [m for m in c07.lib_methods() if bank_for_method(m)]
+    out = []
+    # banks whose method the library does NOT implement come first (their first lookup takes the
+    # "unknown method" path, which is the rarely exercised one)
+    unknown = sorted({es[0].get("checksum_algo") for (cc, _), es in lookup.by_key().items()
+                      if cc == "DE" and es[0].get("checksum_algo") and es[0].get("checksum_algo") not in set(methods)})
+    for a, b in zip(unknown[::2], unknown[1::2]):
+        out.append((f"cold-banks-unimplemented:{a}x{b}",
+                    {"op": "iban", "text": iban_for(bank_for_method(a), "0123456789"), "nat": True},
+                    {"op": "iban", "text": iban_for(bank_for_method(b), "9876543210"), "nat": True}))
+    out = out[:3]
+    for a, b in zip(methods[::2], methods[1::2]):
+        accts = [next((x for x in c07.bases_for(m) if len(set(x)) > 3), c07.bases_for(m)[0]) for m in (a, b)]
+        out.append((f"cold-banks:{a}x{b}",
+                    {"op": "iban", "text": iban_for(bank_for_method(a), accts[0]), "nat": True},
+                    {"op": "iban", "text": iban_for(bank_for_method(b), accts[1]), "nat": True}))
     return out
 
 
@@ -653,6 +683,7 @@ def run_cold_method_harness(args):
     part = par.Part()
     specs = [sa, sb]
     solo = [par.in_child(_solo, s) for s in specs]
+    CANARY_METHODS[:] = par.in_child(c07.lib_methods)
     want_canaries = par.in_child(canaries)
     cold = sched.explore_cold(specs, make_op, bound, after=canaries)
     while True:
@@ -771,6 +802,7 @@ def replay(case: dict) -> dict:
         return {"ok": True}
     if case["kind"] == "c14coldcanary":
         specs = case["ops"]
+        CANARY_METHODS[:] = par.in_child(c07.lib_methods)
         want = par.in_child(canaries)
         res = [par.in_child(sched._cold_exec, specs, make_op, tuple(case["answers"]), None, False, canaries)[2]
                for _ in range(2)]
@@ -811,6 +843,8 @@ def main(tier: str) -> int:
     hs.sort(key=lambda h: -(h[2] * 10 + (5 if h[3] else 0) + len(h[1])))
     cold = [("cold", a, b, 1 if tier == "quick" else 2, tier) for a, b in COLD_PAIRS]
     coldm = [("coldm", n, sa, sb, 1 if tier == "quick" else 2, tier) for n, sa, sb in par.in_child(cold_method_pairs)]
+    cbanks = par.in_child(cold_bank_pairs)
+    coldm += [("coldm", n, sa, sb, 1, tier) for n, sa, sb in (cbanks[:4] if tier == "quick" else cbanks)]
     par.run_shards(run, shard, cold + coldm + [h + (tier,) for h in hs])
     bounds = {}
     for name, specs, bound, opcode in hs + [(f"cold:{a}x{b}", [0, 0], c[3], False) for c in cold
